@@ -50,6 +50,9 @@ def scenario_docs():
         [{'k': 'def', 'cmd': 'newcommand', 'name': N(), 'nargs': None, 'inner': ('nested-begin', K.H('NAME', 1))}, T()],
         [{'k': 'def', 'cmd': 'providecommand', 'name': N(), 'nargs': '1', 'inner': ('nested-end', K.H('NAME', 1))}],
         [{'k': 'def', 'cmd': 'renewcommand', 'name': N(), 'nargs': '2', 'inner': ('begin', K.H('NAME', 1))}, T()],
+        # plain TeX definitions: the defined command is an (unbraced) argument
+        [{'k': 'tdef', 'name': N(), 'body': [T()]}, T(), cmd(N(), br(T()))],
+        [C('p'), {'k': 'tdef', 'name': K.H('NAME', 2), 'body': [cmd(N(), br(T())), T()]}],
         # fixed-signature commands take exactly their signature; a following group is a group of the surroundings
         [cmd('textbf', br(T())), {'k': 'group', 'body': [T()]}, T()],
         [cmd('section', bk(T()), br(T())), {'k': 'group', 'body': [cmd(N(), br(T()))]}],
